@@ -72,6 +72,13 @@ using const_proxy_value = decltype(std::declval<const decltype(*std::declval<R&>
 std::vector<std::string> svec;
 static_assert(std::is_same<const_proxy_value<decltype(enumerate(svec))>, std::string&>::value, "[C20 w30] value() on a const proxy of enumerate(vector<string>&) is string& (a copy would swallow writes)");
 static_assert(std::is_same<const_proxy_value<decltype(enumerate(vec))>, int&>::value, "[C20 w31] value() on a const proxy of enumerate(vector<int>&) is int&");
+// dereferencing through a CONST iterator (const auto it = e.begin(); helpers taking const It&) aliases the element as well
+template <typename R>
+using const_iter_value = decltype((*std::declval<const decltype(std::declval<R&>().begin())&>()).value());
+static_assert(std::is_same<const_iter_value<decltype(enumerate(svec))>, std::string&>::value, "[C20 w34] *const_iterator of enumerate(vector<string>&): value() is string& (a copying proxy would swallow writes)");
+static_assert(std::is_same<const_iter_value<decltype(enumerate(vec))>, int&>::value, "[C20 w35] *const_iterator of enumerate(vector<int>&): value() is int&");
+static_assert(std::is_same<const_iter_value<decltype(enumerate(mp))>, std::pair<const int, int>&>::value, "[C20 w36] *const_iterator of enumerate(map&): value() is pair&");
+static_assert(std::is_same<const_iter_value<decltype(enumerate(cvec))>, const int&>::value, "[C20 w37] *const_iterator of enumerate(const vector&): value() is const int&");
 // built-in arrays of every element type take the array overload (elements are reference_wrappers to the array's own elements)
 const char cchars[4] = { 'a', 0, 'b', 0 };
 char chars[3] = { 'x', 'y', 'z' };
